@@ -27,6 +27,7 @@ type vxC04 struct {
 	m     [2][vxC04N]vxRefFid
 	tag   uint16
 	lean  bool  // two-step runs: users are always given by matching name and number
+	slim  bool  // two-step runs from the larger setups: f1 is a directory; only the last request ranges over all 13 types
 	dq    []int // per FidDestroy call: replies queued on the fid's connection and not yet taken at that moment
 }
 
@@ -357,7 +358,7 @@ func (h *vxC04) setup(s int) {
 		return
 	}
 	if s >= 2 {
-		if !vxBool("f1dir") {
+		if !h.slim && !vxBool("f1dir") {
 			ops.qid.Type = 0
 		}
 		tc := vxC04Tc(Twalk)
@@ -407,10 +408,17 @@ func (h *vxC04) symUser(tc *Fcall) {
 	}
 }
 
+// the types whose replies can change the table (or what a later walk may do): Tauth, Tattach, Twalk, Topen, Tcreate, Tclunk, Tremove
+var vxC04Changing = []uint8{Tauth, Tattach, Twalk, Topen, Tcreate, Tclunk, Tremove}
+
 // sym: one fully symbolic request on connection 0
-func (h *vxC04) sym() bool {
+func (h *vxC04) sym(last bool) bool {
 	ops := h.kit.ops
-	typ := vxC04Types[vxChoose("type", len(vxC04Types))]
+	types := vxC04Types
+	if h.slim && !last {
+		types = vxC04Changing
+	}
+	typ := types[vxChoose("type", len(types))]
 	tc := vxC04Tc(typ)
 	qt := vxU8("qidtype")
 	vxAssume(qt&QTAUTH == 0) // contract of the implementation: only Rauth qids are authentication files
@@ -522,12 +530,13 @@ func (h *vxC04) finish() {
 }
 
 // H04.hist: setup prefix, one symbolic request, probes, epilogue, probes.
-func vxH04Hist(setup int, withAuth bool, nsym int) {
+func vxH04Hist(setup int, withAuth bool, nsym int, slim bool) {
 	h := vxNewC04(withAuth)
 	h.lean = nsym > 1
+	h.slim = slim
 	h.setup(setup)
 	for i := 0; i < nsym; i++ {
-		if !h.sym() {
+		if !h.sym(i == nsym-1) {
 			return
 		}
 	}
